@@ -50,6 +50,11 @@ def crop_item(bs, rate, dims, opts):
         Crop = mm['cropping'].SgzCropper
         with Quiet():
             c = Crop(shenv.ShimFile(st))
+            if opts.get('pre') == 'tracefield':
+                # the cropper object was used as a reader first (it is one): a bulk read of a non-first stored field
+                c.get_tracefield_values(sorted(stored)[-1])
+            elif opts.get('pre') == 'header':
+                c.gen_trace_header(0, load_all_headers=True)
         # ranges: present or None, symbolic bounds
         rngs = []
         for k, name in enumerate(('il', 'xl', 'z')):
@@ -181,6 +186,16 @@ def reblock_item(dims, opts):
         stored = opts.get('stored', (73, 189, 193))
         T = sym_sgz_3d(E, bs, rate, nb, version=opts.get('version', spec.encode_version(0, 2, 5, True)), axes=(100, 200), dims=dims, stored=stored, fid='src')
         T.header[960:980] = LazyBytes.of(shenv.TagSrc(('srchash',)), 20)
+        holes = list(opts.get('holes', ()))
+        if holes:
+            n_grid = dims[0] * dims[1]
+            T.present = [g for g in range(n_grid) if g not in holes]
+            nx = dims[1]
+            T.footer_arrays = {189: LazyArr((n_grid,), (lambda idx: 0 if int(idx[0]) in holes else 10 + 2 * (int(idx[0]) // nx)), 'num', 'i4'),
+                               193: LazyArr((n_grid,), (lambda idx: 0 if int(idx[0]) in holes else 20 + 3 * (int(idx[0]) % nx)), 'num', 'i4')}
+            T.tracecount = len(T.present)
+            T.fields['tracecount'] = T.tracecount
+            T.header[68:72] = pack_field('<I', T.tracecount)
         st = make_store(T, 'src.sgz')
         fs.add('src.sgz', st)
         Conv = mm['conversion'].SgzConverter
@@ -203,7 +218,7 @@ def reblock_item(dims, opts):
         part = opts.get('part', 'header')
         nbs = (64, 64, 4)
         if part == 'header':
-            exp = dict(n_il=dims[0], n_xl=dims[1], n_s=dims[2], bs=nbs, rate=2, tracecount=dims[0] * dims[1], stored=sorted(stored),
+            exp = dict(n_il=dims[0], n_xl=dims[1], n_s=dims[2], bs=nbs, rate=2, tracecount=T.tracecount, stored=sorted(stored),
                        il0=100, xl0=200, il_step=1, xl_step=1, z0=T.z0, interval=T.interval_us, inherit_version=T.version)
             writers.check_container(E, out, exp, 'reblocked')
             leaf = out.content.resolve(960, 20)
@@ -224,12 +239,20 @@ def reblock_item(dims, opts):
         if part == 'trace-header':
             import segyio
             t = E.fresh('trace', 0)
-            E.assume(t < dims[0] * dims[1])
+            E.assume(t < T.tracecount)
             with Quiet():
                 h = r.gen_trace_header(t)
             E.reached('reblock:header')
+            g = t
+            if holes:
+                from shims.lazyarr import _pick
+                g = _pick(T.present, t)      # ordinal -> grid position through the population mask
             for j, f in enumerate(sorted(stored)):
-                readers.expect_header_value(E, T, h[segyio.tracefield.TraceField(f)], j, t, 'reblocked: trace header field %d unchanged' % f)
+                v = h[segyio.tracefield.TraceField(f)]
+                if holes and f in T.footer_arrays:
+                    E.check((not isinstance(v, tuple)) and implied(v == T.footer_arrays[f].get((g,))), 'reblocked: trace header field %d unchanged' % f)
+                else:
+                    readers.expect_header_value(E, T, v, j, g, 'reblocked: trace header field %d unchanged' % f)
     return fn
 
 
@@ -248,6 +271,8 @@ def items_for(prop, tier):
             cfgs.append((bs, rate, dims, dict(ranges=('sym', 'sym', 'sym'), mode='invalid')))
             cfgs.append((bs, rate, dims, dict(ranges=('sym', None, None), mode='invalid')))
             cfgs.append((bs, rate, dims, dict(ranges=(None, None, None), mode='invalid')))
+        for pre in ('tracefield', 'header'):
+            cfgs.append(((4, 4, 256), 8, (9, 10, 300), dict(part='trace-header', ranges=('sym', None, None), mode='valid', pre=pre)))
         # axes with non-unit / negative steps and negative line numbers; old footer convention
         cfgs.append(((4, 4, 256), 8, (9, 10, 300), dict(part='axes', ranges=('sym', 'sym', None), mode='valid', il_step=2, xl_step=-3, il0=-50, xl0=40)))
         cfgs.append(((4, 4, 256), 8, (9, 10, 300), dict(part='header', ranges=('sym', 'sym', None), mode='valid', il_step=2, xl_step=-3, il0=-50, xl0=40)))
@@ -271,6 +296,12 @@ def items_for(prop, tier):
                     continue
                 cfgs.append((dims, dict(part=part)))
         cfgs.append(((8, 9, 6), dict(part='header', version=spec.encode_version(0, 1, 9, True))))
+        cfgs.append(((8, 9, 6), dict(part='header', version=spec.encode_version(0, 1, 5, True))))
+        # irregular source (population mask from the inline-number array): footer arrays keep one value per grid position
+        cfgs.append(((5, 26, 5), dict(part='header', holes=(3, 40, 77))))
+        cfgs.append(((5, 5, 8), dict(part='trace-header', holes=(7,))))
+        if not quick:
+            cfgs.append(((5, 9, 1028), dict(part='voxel')))      # more than one 4x4x1024 source block per trace column
         cfgs.append(((5, 5, 8), dict(part='header', stored=())))
         # unsupported inputs must be refused
         cfgs.append(((5, 5, 8), dict(bs=(4, 4, 512), rate=4)))
